@@ -4,6 +4,7 @@ PROP = {
     "min_theorems": 2,
     "required_theorems": [
         "Verif.Properties.C07.frame_partial",
+        "Verif.Properties.C07.frame_no_emit",
         "Verif.Properties.C07.emit_witness",
     ],
     "streams": [
@@ -18,7 +19,8 @@ PROP = {
                   "types on the access chain / activation depth, invocation purity, destroy) accepts a program and the "
                   "built-in purity table is right, every run of a view function, including everything it calls at any "
                   "depth, performs no storage write, no destruction and no write into an object that existed before "
-                  "the call (only writes into objects allocated during the call, and events). Events are not excluded: "
+                  "the call (only writes into objects allocated during the call, and events); for programs without emit statements "
+                  "events are excluded as well (frame_no_emit). In general events are not excluded: "
                   "the checker accepts emit in view context (emit_witness, known finding view-function-emits-event). "
                   "Tied to /repo by the stream `view`: programs assembled from 42 body snippets (assignment, member / "
                   "index writes on locals, parameters, self, through references; swaps; mutating and view built-ins on "
